@@ -12,12 +12,15 @@
    - proof operators (crypto/merkle/proof_op.go ProofRuntime.VerifyValue / VerifyAbsence) and the
      configured KeyPathFunc are the relations [verify_value], [verify_absence], [key_path].
 
-   Two repairs are modelled as present (see /verif/fixes):
+   Four repairs are modelled as present (see /verif/fixes):
    - F11: BlockResults compares NewResults(TxsResults).Hash() with the next header's
      LastResultsHash (the unrepaired code hashed begin/end-block events into it and refused
      every honest answer);
    - F18: Tx ties res.Tx / res.Hash / res.Index to the proven data;
-   - F27: BlockResults refuses an answer labelled with a height other than the one asked for. *)
+   - F36: BlockResults refuses an answer labelled with a height other than the one asked for;
+   - F37: BlockchainInfo verifies every returned header through VerifyLightBlockAtHeight (the
+     unrepaired code asked TrustedLightBlock and refused honest answers spanning heights the
+     light client had not stored). *)
 From Coq Require Import List ZArith NArith Bool.
 From TM Require Import Common.Hex Generated.Consts C10.Model.
 Import ListNotations.
@@ -190,17 +193,20 @@ Definition relay_block (o : oracle) (r : rblock) : list call * bool :=
 Definition meta_validate_basic (m : meta) : bool :=
   if negb (m_id_ok m) then false else bytes_eqb (m_id_hash m) (hh (m_header m)).
 
+(* the loop "Verify each of the BlockMetas"; (fix F37) every height is verified through
+   VerifyLightBlockAtHeight (which answers from the trusted store when it can) instead of being
+   looked up with TrustedLightBlock, which fails for a height the light client has not stored *)
 Fixpoint check_metas (o : oracle) (ms : list meta) : list call * bool :=
   match ms with
   | [] => ([], true)
   | m :: r =>
     let ht := h_height (m_header m) in
-    match o_trusted o ht with
-    | None => ([CallTrusted ht], false)
+    match o_verify o ht with
+    | None => ([CallVerify ht], false)
     | Some l =>
       if bytes_eqb (hh (m_header m)) (hh (lb_header l))
-      then let '(cs, ok) := check_metas o r in (CallTrusted ht :: cs, ok)
-      else ([CallTrusted ht], false)
+      then let '(cs, ok) := check_metas o r in (CallVerify ht :: cs, ok)
+      else ([CallVerify ht], false)
     end
   end.
 
@@ -305,7 +311,7 @@ Definition relay_results (o : oracle) (req : option Z) (status_latest : Z)
                          (r_height : Z) (rs : list dtx) : list call * bool :=
   let h := match req with Some h => h | None => status_latest - 1 end in
   if r_height <=? 0 then ([], false)
-  else if negb (r_height =? h) then ([], false)                                    (* fix F27 *)
+  else if negb (r_height =? h) then ([], false)                                    (* fix F36 *)
   else
     let nh := h + 1 in
     match o_verify o nh with
